@@ -158,3 +158,36 @@ def stores_before_first_yield(crate, body, adt_sub, depth=3):
         if cb is not None and crate.by_path.get(cd + '::{closure#0}') is None and cb.kind in ('AssocFn', 'Fn'):
             out.extend(helper_stores(cb, depth))
     return out
+
+
+PURE_ACCESS = {'index', 'index_mut', 'deref', 'deref_mut', 'as_mut_slice', 'as_slice', 'len', 'is_empty', 'capacity', 'iter', 'iter_mut', 'get', 'get_mut', 'as_ref', 'as_mut',
+               'first', 'last', 'contains', 'starts_with', 'ends_with', 'as_ptr', 'borrow', 'borrow_mut', 'position', 'split_at', 'split_at_mut'}
+
+
+def mutating_calls_before_first_yield(crate, body, adt_sub):
+    """calls executed before the first suspension that receive `&mut <field of adt_sub>` and are not pure element access / the awaited
+    leaf itself (e.g. Vec::truncate / clear / shrink_to_fit on the receive buffer): they are re-executed whenever the operation is restarted"""
+    region = pre_yield_region(body)
+    out = []
+    for b, t in body.iter_terms('call'):
+        if b not in region:
+            continue
+        nm = t['callee'].get('name')
+        if nm in PURE_ACCESS or t.get('mac'):
+            continue
+        if t['callee'].get('trait') and t.get('ds') is None and any(b2 == b for b2, _ in await_leaves(body)):
+            continue
+        for a in t['args'][:1]:
+            q = op_place(a)
+            if not q:
+                continue
+            ty = q.get('ty') or body.local_ty(q['l']) or ''
+            if not ty.startswith('&mut'):
+                continue
+            tr = body.trace(a)
+            fl = tr.get('fields', []) if tr.get('kind') == 'place' else []
+            fl = [(adt, n) for adt, n in fl if adt and not str(adt).startswith('upvars')]
+            if any(adt and adt_sub in adt for adt, n in fl):
+                # the receiver is a field of the connection (not the connection itself: that is a sub-operation analysed on its own)
+                out.append((b, t, [n for adt, n in fl if adt and adt_sub in adt][-1]))
+    return out
